@@ -75,6 +75,16 @@ CHECKS = {
    text="For the three transaction kinds, body header, pre-fork and KawPow work-object headers with AuxPoW, work objects in 17 view/path combinations, pending-ETX bundles and rollups, pending header, termini, receipts, UTXO entries, AuxTemplate, p2p requests/responses and hash lists, a baseline plus every combination of <=2 (3) deviations over per-field menus {absent, zero/empty, typical, maximum width, each location} is pushed through protobuf, RLP, JSON-RPC and generic JSON, every rawdb Write*/Read* pair, p2p envelopes and gossip encodings: encoding is deterministic, decode(encode(x)) has equal content and hash and re-encodes byte-identically, decode(encode(y)) == y for everything a decoder produced, and across the whole enumerated set equal hashes imply equal content (per hash domain).",
    note="42 known findings in 14 root causes (RLP of Quai transactions with nil work fields, Qi work fields dropped by RLP/JSON, generic MarshalJSON of Header/Termini/WorkObjectHeader, receipt status Locked and dropped fields in consensus/storage RLP, KawPow header hash not covering nonce/mixHash, gencodec nil-slice rejections) are listed in known_findings.json; all protobuf wire/DB paths are clean. Built by a helper agent, reviewed and integrated (reports/C14.md).",
    design="2/C14"),
+ "C02": dict(
+   technique="exhaustive program enumeration: every sequence of <=2 (thorough 3) bytecode fragments from a 37-member menu x callee codes x messages x gas limits x fork regimes through the real ApplyMessage/applyTransaction, conservation equation checked on a full balance dump",
+   text="Contract A is every sequence of <=2 (3) fragments from a menu of 37 (CALL/CALLCODE/DELEGATECALL/STATICCALL to 8 target classes with value 0/1/balance+1 and gas 0/2300/all, CREATE/CREATE2 with 4 init codes, SELFDESTRUCT to 4 beneficiaries, ETX, CONVERT, SSTORE, REVERT, INVALID, STOP), crossed with 7 callee codes, 5 message kinds (call with/without value, create, inbound ETX, self-destruct transaction, kQuai-setter), 3 gas limits and 3 fork regimes, plus 2 136 special messages, executed by the real EVM on a real StateDB: sum of balances after = before - gas charge - value and prepaid fee of emitted ETXs + inbound value + state-rent refunds, no negative balance, gas charge within [used x price, limit x price], a failed transaction leaves every balance but the payer's unchanged.",
+   note="Known findings (5): two pre-fork-only value creations (legacy rules kept for replay), two value destructions caused by the opETX defects of C05, self-destruct-to-self burning the balance (inherited EVM semantics). Trusts: value domain {0,1,balance+-1,2^256-1}, depth-3 nesting. Built by a helper agent, reviewed and integrated (reports/C02_C05.md).",
+   design="2/C02"),
+ "C05": dict(
+   technique="exhaustive argument grids for the ETX / CONVERT opcodes, out-of-scope calls and the lockup precompile on the real interpreter (stack height observed through a tracer), plus multi-frame programs through the real applyTransaction",
+   text="Every combination of destination class x value {0,1,balance,balance+1,2^256-1} x ETX gas {0,20999,21000,2^64-1,2^64} x tip/fee {0,1,2^255} x access-list blob {empty, valid, malformed, huge offset} x balance x available gas x outbound-cache fill {0,2,65535,65536} x 3 fork regimes for the ETX and CONVERT opcodes, evm.Call to out-of-scope addresses, UnwrapQi and ClaimCoinbaseLockup: success => debit == value + prepaid fee and exactly one new ETX at the next index; failure => no debit, no ETX and a zero status word at CALL stack height. Multi-frame programs through applyTransaction: receipt.OutboundEtxs equals the operations that succeeded in non-reverted frames, in execution order.",
+   note="Known findings (9): opETX keeps the debit on three failure exits (ineligible destination - also no status word -, malformed access list, index overflow), opConvert / UnwrapQi / ClaimCoinbaseLockup index-overflow exits, a lockup claim inside a frame that later reverts keeps the record deleted without emitting the ETX, two legacy pre-fork uint256-wrap behaviours. Built by a helper agent, reviewed and integrated (reports/C02_C05.md).",
+   design="2/C05"),
 }
 
 NOT_YET = "check not built yet in this session (planned; see DESIGN.md section 2)"
